@@ -130,7 +130,7 @@ class CtxRecorder:
 
     # ------------------------------------------------------------------ C02
     def ctx_getitem(self, side, items, raw):
-        labels = self.olab(items) if side == 'o' else self.plab(items)
+        labels = self.arg(self.olab(items) if side == 'o' else self.plab(items))    # incl. one-shot iterators (F6)
         if raw:
             x, i = self.ctx.__getitem__(labels, raw=True)
             x, i = x.members(), i.members()
